@@ -2,7 +2,7 @@
    case, the configuration it denotes, boolean equality on observations, and the per-case verdict functions
    evaluated by vm_compute in the generated cases files.  No proofs in this file. *)
 From Coq Require Import List ZArith NArith Bool Arith.
-From Scalibr Require Import Lib.SortSearch Walk.Model Walk.Spec.
+From Scalibr Require Import Lib.SortSearch Walk.Model Walk.Spec Walk.Perm Walk.Sched Walk.Faults.
 Import ListNotations.
 
 (* ------------------------------------------------------------------ observations *)
@@ -16,6 +16,15 @@ Record obs := {
   o_inv : list tpkg;                    (* returned Inventory.Packages: (Extractor.Name(), name, version, locations) *)
   o_status : list (ext * status);       (* returned []*plugin.Status: name, enum, failure reason split into items *)
   o_scan : sobs }.                      (* scalibr.Scan on the same input: status failed?, sorted packages, sorted plugin statuses *)
+
+(* shorthands used by the harness printer *)
+Definition Fc (n : N) (k : kind) (size : Z) (data : N) : node := File n k size data no_ff.
+Definition Ff (n : N) (k : kind) (size : Z) (data : N) (o f s : bool) : node :=
+  File n k size data {| ff_open := o; ff_fstat := f; ff_stat := s |}.
+Definition Dc (n : N) (ch : list node) : node := Dir n ch no_df.
+Definition Df (n : N) (ch : list node) (o : bool) (ra : option nat) (s : bool) : node :=
+  Dir n ch {| df_open := o; df_read_at := ra; df_stat := s |}.
+Definition Pk (n v : bytes) (l : list bytes) : pkg := {| p_name := n; p_version := v; p_locs := l |}.
 
 (* ------------------------------------------------------------------ case record *)
 Record wcase := {
@@ -35,6 +44,7 @@ Record wcase := {
   w_maxs : Z;
   w_fatal : bool;
   w_cancel : cancel;
+  w_group : N;                                     (* C08: cases with the same non-zero group are listings of the same content *)
   w_obs : obs }.
 
 Fixpoint list_eqb {A} (f : A -> A -> bool) (a b : list A) : bool :=
@@ -130,9 +140,9 @@ Definition model_scan (c : cfg) (roots : list node) : sobs :=
 
 Definition model_obs (c : cfg) (roots : list node) : obs :=
   match run c roots with
-  | RPanic st _ => {| o_class := OPanic; o_events := s_events st; o_inv := []; o_status := []; o_scan := model_scan c roots |}
-  | RErr inv a st => {| o_class := OErr a; o_events := s_events st; o_inv := inv; o_status := []; o_scan := model_scan c roots |}
-  | ROk inv sts st => {| o_class := OOk; o_events := s_events st; o_inv := inv; o_status := sts; o_scan := model_scan c roots |}
+  | RPanic st _ => {| o_class := OPanic; o_events := filter observable (s_events st); o_inv := []; o_status := []; o_scan := model_scan c roots |}
+  | RErr inv a st => {| o_class := OErr a; o_events := filter observable (s_events st); o_inv := inv; o_status := []; o_scan := model_scan c roots |}
+  | ROk inv sts st => {| o_class := OOk; o_events := filter observable (s_events st); o_inv := inv; o_status := sts; o_scan := model_scan c roots |}
   end.
 
 Definition case_model_ok (w : wcase) : bool := obs_eqb (model_obs (cfg_of_case w) (w_roots w)) (w_obs w).
@@ -152,16 +162,20 @@ Fixpoint nodup_b {A} (f : A -> A -> bool) (l : list A) : bool :=
 Definition xt_no_panic (w : wcase) : bool :=
   forallb (fun x => match snd x with XPanic => false | _ => true end) (w_xt w).
 
-(* the inputs on which the whole-tree C01 statement is claimed: one fault-free well-formed root scanned
-   without explicit paths, no inode limit, no cancellation, no panicking extractor, and dom_C01 *)
-Definition c01_domain (w : wcase) : bool :=
+(* the inputs the whole-tree C01 statement speaks about: one fault-free well-formed root scanned without
+   explicit paths, no inode limit, no cancellation, no panicking extractor, extractor names unique *)
+Definition c01_base_domain (w : wcase) : bool :=
   match w_roots w with
   | [t] =>
       wf_tree t && fault_free t && no_limits (cfg_of_case w) && xt_no_panic w
+      && nodup_b ln_eqb (w_exts w)
       && match w_paths w with [] => true | _ => false end
-      && dom_C01 (cfg_of_case w) t
   | _ => false
   end.
+
+(* ... restricted to the domain D of walk_calls_exact_on_D *)
+Definition c01_domain (w : wcase) : bool :=
+  c01_base_domain w && match w_roots w with [t] => dom_C01 (cfg_of_case w) t | _ => false end.
 
 (* the specification evaluated on the implementation's own observable behaviour *)
 Definition c01_spec_on_obs (w : wcase) : bool :=
@@ -179,3 +193,295 @@ Definition c01_spec_on_obs (w : wcase) : bool :=
   end.
 
 Definition case_spec_ok_C01 (w : wcase) : bool := negb (c01_domain w) || c01_spec_on_obs w.
+
+(* ------------------------------------------------------------------ C01 oracle, requested paths *)
+(* requested-path statement: claimed when every requested directory is one the whole-tree scan reaches *)
+Definition c01_paths_domain (w : wcase) : bool :=
+  match w_roots w with
+  | [t] =>
+      let c := cfg_of_case w in
+      wf_tree t && fault_free t && no_limits c && xt_no_panic w && nodup_b ln_eqb (w_exts w)
+      && negb (match w_paths w with [] => true | _ => false end)
+      && dom_C01 c t
+      && forallb (fun p => canonical_path p &&
+                           match lookup_from t (spath p) with
+                           | Some (Dir _ _ _) => reached (whole_tree c) t (spath p)
+                           | _ => true
+                           end) (w_paths w)
+  | _ => false
+  end.
+
+Definition c01_paths_spec_on_obs (w : wcase) : bool :=
+  match w_roots w with
+  | [t] =>
+      let c := cfg_of_case w in
+      let o := w_obs w in
+      let exp := expected_paths c t in
+      oclass_eqb (o_class o) OOk
+      && list_eqb ep_eqb (calls (o_events o)) exp
+      && list_eqb tpkg_eqb (o_inv o) (inventory_of_calls c exp)
+      && list_eqb est_eqb (o_status o) (map (fun e => (e, expected_status c exp e)) (c_exts c))
+  | _ => true
+  end.
+
+Definition case_spec_ok_C01_paths (w : wcase) : bool := negb (c01_paths_domain w) || c01_paths_spec_on_obs w.
+
+(* ------------------------------------------------------------------ C08 oracles *)
+(* multiset equality by removing one occurrence at a time *)
+Fixpoint remove_one {A} (f : A -> A -> bool) (x : A) (l : list A) : option (list A) :=
+  match l with
+  | [] => None
+  | y :: l' => if f x y then Some l' else option_map (cons y) (remove_one f x l')
+  end.
+Fixpoint perm_b {A} (f : A -> A -> bool) (a b : list A) : bool :=
+  match a with
+  | [] => match b with [] => true | _ => false end
+  | x :: a' => match remove_one f x b with Some b' => perm_b f a' b' | None => false end
+  end.
+
+Definition status_perm_b (a b : status) : bool :=
+  match a, b with
+  | StSucceeded, StSucceeded => true
+  | StPartial x, StPartial y => perm_b erritem_eqb x y
+  | StFailed x, StFailed y => perm_b erritem_eqb x y
+  | _, _ => false
+  end.
+Definition est_perm_b (a b : list N * status) : bool := ln_eqb (fst a) (fst b) && status_perm_b (snd a) (snd b).
+
+Definition pkey_eqb (a b : list N * pkg) : bool :=
+  ln_eqb (p_name (snd a)) (p_name (snd b)) && ln_eqb (p_version (snd a)) (p_version (snd b))
+  && ln_eqb (fst a) (fst b) && ln_eqb (sprint_locs (p_locs (snd a))) (sprint_locs (p_locs (snd b))).
+
+Definition sobs_perm_equiv (a b : sobs) : bool :=
+  match a, b with
+  | SPanic, SPanic => true
+  | SDone f i s, SDone g j t => Bool.eqb f g && list_eqb pkey_eqb i j && list_eqb est_perm_b s t
+  | SNone, SNone => true
+  | _, _ => false
+  end.
+
+(* two observations of the same content under different listing orders: same outcome, same multiset of
+   Extract calls and packages, same plugin statuses up to the order of failure items, and the same
+   sorted Scan output (sequence of sort keys) *)
+Definition obs_perm_equiv (a b : obs) : bool :=
+  oclass_eqb (o_class a) (o_class b)
+  && perm_b ep_eqb (calls (o_events a)) (calls (o_events b))
+  && perm_b tpkg_eqb (o_inv a) (o_inv b)
+  && list_eqb est_perm_b (o_status a) (o_status b)
+  && sobs_perm_equiv (o_scan a) (o_scan b).
+
+(* indices of grouped cases whose observation is not equivalent to the first case of their group in the list *)
+Fixpoint group_bad_from (all : list wcase) (l : list wcase) (i : nat) : list nat :=
+  match l with
+  | [] => []
+  | w :: l' =>
+      let rest := group_bad_from all l' (S i) in
+      if N.eqb (w_group w) 0 then rest
+      else match find (fun v => N.eqb (w_group v) (w_group w)) all with
+           | Some v => if obs_perm_equiv (w_obs v) (w_obs w) then rest else i :: rest
+           | None => rest
+           end
+  end.
+Definition group_bad (l : list wcase) : list nat := group_bad_from l l 0.
+
+(* the sorted order of Scan's output: locations inside a package, packages, statuses *)
+Definition sorted_leb {A} (cmp : A -> A -> comparison) : list A -> bool :=
+  fix go l := match l with
+              | [] => true
+              | x :: l' => match l' with [] => true | y :: _ => leb cmp x y && go l' end
+              end.
+
+Definition scan_sorted (o : obs) : bool :=
+  match o_scan o with
+  | SDone _ inv sts =>
+      sorted_leb cmp_packages inv && sorted_leb cmp_status sts
+      && forallb (fun x => sorted_leb bcmp (p_locs (snd x))) inv
+  | _ => true
+  end.
+
+(* Run over several roots: the union of the single-root results, no package twice, one status per plugin *)
+Definition c08_multi_base (w : wcase) : bool :=
+  let c := cfg_of_case w in
+  (1 <? length (w_roots w))%nat
+  && forallb (fun t => wf_tree t && fault_free t && dom_C01 c t) (w_roots w)
+  && no_limits c && xt_no_panic w && nodup_b ln_eqb (w_exts w)
+  && match w_paths w with [] => true | _ => false end.
+
+Definition c08_union_on_obs (w : wcase) : bool :=
+  let c := cfg_of_case w in
+  oclass_eqb (o_class (w_obs w)) OOk
+  && perm_b tpkg_eqb (o_inv (w_obs w))
+            (flat_map (fun t => inventory_of_calls c (expected_calls c t)) (w_roots w)).
+
+Definition c08_status_once_on_obs (w : wcase) : bool := nodup_b ln_eqb (map fst (o_status (w_obs w))).
+
+Definition c08_multi_domain (w : wcase) : bool := c08_multi_base w && dom_multiroot (cfg_of_case w) (w_roots w).
+
+Definition case_spec_ok_C08 (w : wcase) : bool :=
+  scan_sorted (w_obs w) && (negb (c08_multi_domain w) || c08_union_on_obs w).
+
+(* ------------------------------------------------------------------ C09 oracle *)
+(* every directory on the way to segs opens and lists the next segment before its read failure *)
+Fixpoint reach_ok (nd : node) (segs : list N) : bool :=
+  match segs with
+  | [] => true
+  | s :: rest =>
+      match nd with
+      | File _ _ _ _ _ => false
+      | Dir _ ch df =>
+          negb (df_open df) &&
+          match find_child s (listed ch df) with Some c1 => reach_ok c1 rest | None => false end
+      end
+  end.
+
+(* declaratively: some directory the fault-free scan enters, and the faulty scan still reaches, cannot be opened
+   or fails while being listed; or the root cannot be stat'ed *)
+Definition trav_fault_spec (c : cfg) (t : node) : bool :=
+  node_stat_fails t ||
+  existsb (fun q => reached c (erase_faults t) q && negb (skipped_dir c (erase_faults t) q) && reach_ok t q &&
+                    match lookup_from t q with
+                    | Some (Dir _ ch df) =>
+                        df_open df || match df_read_at df with Some k => (k <=? length ch)%nat | None => false end
+                    | _ => false
+                    end) (dirs_of [] t).
+
+(* what each expected call of the fault-free scan turns into *)
+Definition call_outcome (c : cfg) (t : node) (ep : list N * list N) : option (option (list N * erritem)) :=
+  (* None: lost; Some None: extracted without error; Some (Some item): an error item of the plugin *)
+  let q := spath (snd ep) in
+  if negb (node_stat_fails t) && reach_ok t q then
+    match lookup_from t q with
+    | Some (File _ _ _ _ ff) =>
+        if ff_open ff then Some (Some (fst ep, (EkOpen, snd ep)))
+        else if ff_fstat ff then Some (Some (fst ep, (EkFstat, snd ep)))
+        else if errs_flag (c_extract c (fst ep) (snd ep)) then Some (Some (fst ep, (EkExtract, snd ep)))
+        else Some None
+    | _ => None
+    end
+  else None.
+
+Definition expected_status_faulty (c : cfg) (t : node) (exp : list (list N * list N)) (e : list N) : status :=
+  let errs := flat_map (fun ep => match call_outcome c t ep with
+                                  | Some (Some (e', it)) => if ln_eqb e' e then [it] else []
+                                  | _ => []
+                                  end) exp in
+  let found := existsb (fun ep => ln_eqb (fst ep) e && not_lost t (snd ep) &&
+                                  match pkgs_of (c_extract c (fst ep) (snd ep)) with [] => false | _ => true end) exp in
+  match errs with
+  | [] => StSucceeded
+  | _ => if found then StPartial errs else StFailed errs
+  end.
+
+Definition c09_domain (w : wcase) : bool :=
+  match w_roots w with
+  | [t] =>
+      let c := cfg_of_case w in
+      wf_tree t && no_limits c && xt_no_panic w && nodup_b ln_eqb (w_exts w)
+      && match w_paths w with [] => true | _ => false end
+      && dom_C01 c (erase_faults t) && tree_quiet c t
+  | _ => false
+  end.
+
+Definition c09_spec_on_obs (w : wcase) : bool :=
+  match w_roots w with
+  | [t] =>
+      let c := cfg_of_case w in
+      let o := w_obs w in
+      let exp := expected_calls c (erase_faults t) in
+      if c_fatal c then
+        (* fatal on request: the scan fails iff a traversal fault is reached; never a panic *)
+        if trav_fault_spec c t then oclass_eqb (o_class o) (OErr AbFs) else oclass_eqb (o_class o) OOk
+      else
+        oclass_eqb (o_class o) OOk
+        && list_eqb ep_eqb (calls (o_events o)) (filter (fun ep => not_lost t (snd ep)) exp)
+        && list_eqb tpkg_eqb (o_inv o) (inventory_of_calls c (filter (fun ep => not_lost t (snd ep)) exp))
+        && list_eqb est_eqb (o_status o) (map (fun e => (e, expected_status_faulty c t exp e)) (c_exts c))
+  | _ => true
+  end.
+
+Definition case_spec_ok_C09 (w : wcase) : bool := negb (c09_domain w) || c09_spec_on_obs w.
+
+(* the statement without the domain restriction tree_quiet: used to recognise the known findings *)
+Definition c09_base_domain (w : wcase) : bool :=
+  match w_roots w with
+  | [t] =>
+      let c := cfg_of_case w in
+      wf_tree t && no_limits c && xt_no_panic w && nodup_b ln_eqb (w_exts w)
+      && match w_paths w with [] => true | _ => false end
+      && dom_C01 c (erase_faults t)
+  | _ => false
+  end.
+
+(* ------------------------------------------------------------------ C10 oracle *)
+Fixpoint extracts_before (evs : list event) (nv nx : nat) (f : nat -> nat -> list N -> bool) : bool :=
+  (* f (visits so far) (extract calls so far) path  for every Extract event *)
+  match evs with
+  | [] => true
+  | EVisit _ :: l => extracts_before l (S nv) nx f
+  | EExtract _ p :: l => f nv nx p && extracts_before l nv (S nx) f
+  | _ :: l => extracts_before l nv nx f
+  end.
+
+Definition file_size_ok (c : cfg) (roots : list node) (p : list N) : bool :=
+  (c_max_size c <=? 0)%Z ||
+  existsb (fun t => match lookup_from t (spath p) with
+                    | Some (File _ _ sz _ _) => (sz <=? c_max_size c)%Z
+                    | _ => false
+                    end) roots.
+
+Definition c10_bounds_on_obs (w : wcase) : bool :=
+  let c := cfg_of_case w in
+  let o := w_obs w in
+  let cs := calls (o_events o) in
+  ((c_max_inodes c <=? 0)%Z || (Z.of_nat (length (visits (o_events o))) <=? c_max_inodes c)%Z)
+  && forallb (fun ep => file_size_ok c (w_roots w) (snd ep)) cs
+  && match c_cancel c with
+     | NoCancel => true
+     | CancelAtVisit k => extracts_before (o_events o) 0 0 (fun nv _ _ => (nv <? k)%nat)
+     | CancelAtExtract j =>
+         (j =? 0)%nat ||
+         extracts_before (o_events o) 0 0
+           (fun _ nx p => (nx <? j)%nat || match nth_error cs (j - 1) with Some ep => ln_eqb (snd ep) p | None => false end)
+     end
+  && (c_gitignore c || negb (oclass_eqb (o_class o) OPanic)).
+
+(* fails exactly when work remained: single root, whole-tree scan, non-fatal, quiet tree *)
+Definition c10_iff_domain (w : wcase) : bool :=
+  match w_roots w with
+  | [t] =>
+      let c := cfg_of_case w in
+      negb (c_fatal c) && xt_no_panic w && tree_quiet c t && match w_paths w with [] => true | _ => false end
+      && negb (c_gitignore c)
+      && match c_cancel c with
+         | NoCancel => (0 <? c_max_inodes c)%Z
+         | CancelAtVisit _ => (c_max_inodes c <=? 0)%Z
+         | CancelAtExtract _ => false
+         end
+  | _ => false
+  end.
+
+Definition c10_iff_on_obs (w : wcase) : bool :=
+  match w_roots w with
+  | [t] =>
+      let c := cfg_of_case w in
+      let need := visits_needed c t in
+      match c_cancel c with
+      | NoCancel =>
+          if (Z.of_nat need <=? c_max_inodes c)%Z then oclass_eqb (o_class (w_obs w)) OOk
+          else oclass_eqb (o_class (w_obs w)) (OErr AbInodes)
+      | CancelAtVisit k =>
+          if (need <? k)%nat then oclass_eqb (o_class (w_obs w)) OOk else oclass_eqb (o_class (w_obs w)) (OErr AbCtx)
+      | CancelAtExtract _ => true
+      end
+      && match o_scan (w_obs w) with
+         | SDone failed _ _ => Bool.eqb failed (negb (oclass_eqb (o_class (w_obs w)) OOk))
+         | _ => true
+         end
+  | _ => true
+  end.
+
+Definition case_spec_ok_C10 (w : wcase) : bool :=
+  c10_bounds_on_obs w && (negb (c10_iff_domain w) || c10_iff_on_obs w).
+
+(* the iff statement without the UseGitignore restriction: to recognise the known panic *)
+Definition c10_panics_on_obs (w : wcase) : bool := oclass_eqb (o_class (w_obs w)) OPanic.
